@@ -44,10 +44,10 @@ func init() {
 		Required:    req,
 		Families: func(c *mon.Config) []mon.Family {
 			return []mon.Family{
-				{Name: "extreme-product", N: 1 + 6 + 36 + 216 + c.Pick(300, 6000), Run: c01Product},
+				{Name: "extreme-product", N: 1 + 6 + 36 + 216 + c.Pick(1000, 100000), Run: c01Product},
 				{Name: "byte-lanes", N: 8 * 3, Run: c01Lanes},
-				{Name: "zoo", N: c.Pick(20000, 400000), Run: c01Zoo},
-				{Name: "zoo-long", N: c.Pick(400, 12000), Run: c01ZooLong},
+				{Name: "zoo", N: c.Pick(60000, 6000000), Run: c01Zoo},
+				{Name: "zoo-long", N: c.Pick(1000, 200000), Run: c01ZooLong},
 			}
 		},
 	})
@@ -65,6 +65,16 @@ func c01Check(w *mon.W, words []uint64) bool {
 	w.Op = "IndexRank128"
 	idx128 := bitmap.IndexRank128(words)
 	w.Eval(4)
+	// indexes returned for earlier bitmaps must not have been changed by building these
+	ret, _ := w.State["c01"].(*retained)
+	if ret == nil {
+		ret = &retained{}
+		w.State["c01"] = ret
+	}
+	if ret.keep(idx, idxT, idx128) >= 0 {
+		w.Fail("Index/earlier-returned-index-changed-by-later-call", mon.D{"what": "an index slice returned by an earlier IndexRank64/IndexRank128 call changed its content after a later call", "nwords_of_later_bitmap": nw})
+		return false
+	}
 	w.Bucket("index/trailing")
 	w.Bucket("index/no-trailing")
 	d := func(extra mon.D) mon.D {
